@@ -1,12 +1,232 @@
-//! C04 — ops evaluated on the real code and the generator of their inputs.
-#![allow(unused_imports, dead_code, clippy::all)]
+//! C04 — `Bfs`, `BfsDist` on the real code, every representation.
+//!
+//!   bfs_iter           <desc> <sources>  =>  [v …]
+//!   bfs_dist_iter      <desc> <sources>  =>  [[v w] …]
+//!   bfs_dist_distances <desc> <sources>  =>  [d …]          (usize::MAX printed in full)
+//!
+//! `<desc>` is a digraph description (`graphs::Desc`), `<sources>` a list of vertex ids handed to
+//! `new` in that order.  A panic anywhere (building, `new`, iteration) is reported by `main.rs`
+//! as `panic`.
+#![allow(clippy::all)]
 
 use crate::graphs::{self, Desc};
 use crate::rng::Rng;
 use crate::value::V;
+use crate::with_digraph;
+use graaf::{Bfs, BfsDist};
+use std::collections::BTreeSet;
 
-pub fn eval(_op: &str, _args: &[V]) -> Option<Vec<V>> {
-    None
+pub fn eval(op: &str, args: &[V]) -> Option<Vec<V>> {
+    match op {
+        "bfs_iter" => {
+            let [desc, srcs] = args else { return None };
+            let desc = Desc::parse(desc)?;
+            let srcs = srcs.as_usizes()?;
+            let out: Vec<usize> = with_digraph!(&desc, d => Bfs::new(&d, srcs.iter().copied()).collect());
+            Some(vec![V::us(out)])
+        }
+        "bfs_dist_iter" => {
+            let [desc, srcs] = args else { return None };
+            let desc = Desc::parse(desc)?;
+            let srcs = srcs.as_usizes()?;
+            let out: Vec<(usize, usize)> =
+                with_digraph!(&desc, d => BfsDist::new(&d, srcs.iter().copied()).collect());
+            Some(vec![V::pairs(out)])
+        }
+        "bfs_dist_distances" => {
+            let [desc, srcs] = args else { return None };
+            let desc = Desc::parse(desc)?;
+            let srcs = srcs.as_usizes()?;
+            let out: Vec<usize> =
+                with_digraph!(&desc, d => BfsDist::new(&d, srcs.iter().copied()).distances());
+            Some(vec![V::us(out)])
+        }
+        _ => None,
+    }
 }
 
-pub fn gen(_rng: &mut Rng, _thorough: bool, _emit: &mut dyn FnMut(String)) {}
+// ---------------------------------------------------------------------------------------
+// generator (shared with c05.rs)
+// ---------------------------------------------------------------------------------------
+
+/// Families that stress a breadth-first traversal: deep levels (fuel bound, level growth),
+/// wide levels, ties between parents, several components.  Vertex ids are permuted so that
+/// discovery order differs from id order.
+fn gen_bfs_family(rng: &mut Rng, n: usize) -> (&'static str, Vec<(usize, usize)>) {
+    let mut set: BTreeSet<(usize, usize)> = BTreeSet::new();
+    let name: &'static str;
+    match rng.below(7) {
+        0 => {
+            name = "path";
+            for i in 0..n.saturating_sub(1) {
+                let _ = set.insert((i, i + 1));
+            }
+        }
+        1 => {
+            name = "cycle";
+            if n >= 2 {
+                for i in 0..n {
+                    let _ = set.insert((i, (i + 1) % n));
+                }
+            }
+            if n >= 4 && rng.chance(1, 2) {
+                // a chord: two routes of different length to the same vertex
+                let a = rng.below(n);
+                let b = (a + 2 + rng.below(n - 3)) % n;
+                if a != b {
+                    let _ = set.insert((a, b));
+                }
+            }
+        }
+        2 => {
+            name = "out-tree";
+            let k = 1 + rng.below(3);
+            for v in 1..n {
+                let _ = set.insert(((v - 1) / k, v));
+            }
+        }
+        3 => {
+            name = "in-tree";
+            let k = 1 + rng.below(3);
+            for v in 1..n {
+                let _ = set.insert((v, (v - 1) / k));
+            }
+        }
+        4 => {
+            name = "grid";
+            let w = 1 + rng.below(n.min(12));
+            for v in 0..n {
+                if (v + 1) % w != 0 && v + 1 < n {
+                    let _ = set.insert((v, v + 1));
+                    if rng.chance(1, 2) {
+                        let _ = set.insert((v + 1, v));
+                    }
+                }
+                if v + w < n {
+                    let _ = set.insert((v, v + w));
+                    if rng.chance(1, 2) {
+                        let _ = set.insert((v + w, v));
+                    }
+                }
+            }
+        }
+        5 => {
+            // complete layers: every vertex of layer i points to every vertex of layer i+1,
+            // so every vertex has many candidate parents
+            name = "full-layers";
+            let w = 1 + rng.below(n.min(9));
+            for u in 0..n {
+                for v in 0..n {
+                    if v / w == u / w + 1 {
+                        let _ = set.insert((u, v));
+                    }
+                }
+            }
+            if rng.chance(1, 2) && n >= 2 {
+                let _ = set.insert((n - 1, 0));
+            }
+        }
+        _ => {
+            // several small components, some of them cyclic
+            name = "components";
+            let mut start = 0;
+            while start < n {
+                let len = (1 + rng.below(5)).min(n - start);
+                for i in 0..len.saturating_sub(1) {
+                    let _ = set.insert((start + i, start + i + 1));
+                }
+                if len >= 2 && rng.chance(1, 2) {
+                    let _ = set.insert((start + len - 1, start));
+                }
+                start += len;
+            }
+        }
+    }
+    // relabel
+    let mut perm: Vec<usize> = (0..n).collect();
+    if rng.chance(3, 4) {
+        rng.shuffle(&mut perm);
+    }
+    let mut arcs: Vec<(usize, usize)> = set.into_iter().map(|(u, v)| (perm[u], perm[v])).filter(|&(u, v)| u != v).collect();
+    rng.shuffle(&mut arcs);
+    (name, arcs)
+}
+
+/// One traversal input: a description in a random representation (all six are used) and a
+/// list of distinct in-range sources (empty / single / several).
+pub fn gen_case(rng: &mut Rng) -> (Desc, Vec<usize>) {
+    let repr = *rng.pick(&graphs::ALL_REPRS);
+    let mut desc = if rng.chance(1, 4) {
+        let n = graphs::gen_order(rng, 130);
+        let (_, arcs) = gen_bfs_family(rng, n);
+        let k = arcs.len();
+        Desc { repr: repr.to_string(), verts: (0..n).collect(), arcs, weights: vec![1; k] }
+    } else {
+        graphs::gen_desc(rng, repr, 130).1
+    };
+    match repr {
+        "wu" => desc.weights = desc.arcs.iter().map(|_| i128::from(rng.range(0, 9))).collect(),
+        "wi" => desc.weights = desc.arcs.iter().map(|_| i128::from(rng.range(-5, 9))).collect(),
+        _ => {}
+    }
+    let srcs = graphs::gen_sources(rng, desc.order());
+    (desc, srcs)
+}
+
+/// All digraphs (no self-loops) on exactly `n` vertices × all source subsets; `f` gets the
+/// running index (used to rotate representations / ops), arcs and sources.
+pub fn for_all_small(n: usize, f: &mut dyn FnMut(usize, &[(usize, usize)], &[usize])) {
+    let pairs: Vec<(usize, usize)> =
+        (0..n).flat_map(|u| (0..n).filter(move |&v| v != u).map(move |v| (u, v))).collect();
+    let mut idx = 0usize;
+    for code in 0u32..(1u32 << pairs.len()) {
+        let arcs: Vec<(usize, usize)> =
+            pairs.iter().enumerate().filter(|(i, _)| code >> i & 1 == 1).map(|(_, &p)| p).collect();
+        for smask in 0u32..(1u32 << n) {
+            let srcs: Vec<usize> = (0..n).filter(|i| smask >> i & 1 == 1).collect();
+            f(idx, &arcs, &srcs);
+            idx += 1;
+        }
+    }
+}
+
+pub fn small_desc(repr: &str, n: usize, arcs: &[(usize, usize)]) -> Desc {
+    Desc { repr: repr.to_string(), verts: (0..n).collect(), arcs: arcs.to_vec(), weights: vec![1; arcs.len()] }
+}
+
+const OPS: [&str; 3] = ["bfs_iter", "bfs_dist_iter", "bfs_dist_distances"];
+
+pub fn gen(rng: &mut Rng, thorough: bool, emit: &mut dyn FnMut(String)) {
+    // (1) exhaustive small scope: all digraphs on <= 3 (quick) / <= 4 (thorough) vertices x all
+    //     source subsets; representation and op rotate (thorough: every op on <= 3 vertices).
+    let max_n = if thorough { 4 } else { 3 };
+    for n in 1..=max_n {
+        for_all_small(n, &mut |idx, arcs, srcs| {
+            let repr = graphs::ALL_REPRS[idx % 6];
+            let d = small_desc(repr, n, arcs).to_v();
+            let s = V::us(srcs.iter().copied());
+            if thorough && n <= 3 {
+                for op in OPS {
+                    emit(format!("{op} {d} {s}"));
+                }
+            } else {
+                emit(format!("{} {d} {s}", OPS[(idx / 6) % 3]));
+            }
+            // the order in which the sources are handed over is part of the input
+            if srcs.len() >= 2 && (n <= 3 && thorough || idx % 4 == 0) {
+                let r = V::us(srcs.iter().rev().copied());
+                emit(format!("bfs_dist_iter {d} {r}"));
+            }
+        });
+    }
+    // (2) random: shared families + BFS families, orders 1..130, all representations
+    let n_random = if thorough { 20_000 } else { 1_000 };
+    for _ in 0..n_random {
+        let (desc, srcs) = gen_case(rng);
+        let d = desc.to_v();
+        let s = V::us(srcs.iter().copied());
+        for op in OPS {
+            emit(format!("{op} {d} {s}"));
+        }
+    }
+}
